@@ -37,14 +37,14 @@ def run(chk):
     d = vplib.sub("c13")
     sp = os.path.join(d, "stmts.ndjson")
     open(sp, "w").write("\n".join(stmts) + "\n")
-    n = 30000 if thorough else 1000
+    n = 60000 if thorough else 3000
     res = vplib.vh("rp", ["complete", "--in", sp, "--n", str(n), "--tier", T, "--seed", str(chk.seed)], timeout=3600)
     c = res.get("counts", {})
     if c.get("stmt-table", 0) != len(stmts) or c.get("statements", 0) < n or c.get("table-entries", 0) < 60000 or c.get("large-splits", 0) < 1000:
         raise vplib.Machinery("volume run incomplete: %s" % c)
     chk.add_replay(res, "complete")
     if c.get("descriptor-differs-from-specification", 0):
-        print("NOTE C13: %d honest descriptors differ from Desc() of RangeStmt.tla without breaking the property" % c["descriptor-differs-from-specification"])
+        print("NOTE C13: %d honest descriptors differ from Desc() of RangeStmt.tla (counted only)" % c["descriptor-differs-from-specification"])
     chk.exhaustive = thorough
 
 
